@@ -45,18 +45,31 @@ def sh(cmd, cwd=None, env=None, timeout=None, input=None):
 
 
 class Lock:
+    """File lock shared by all check processes; re-entrant within one process."""
+    _held = {}
+
     def __init__(self, name):
         os.makedirs(WORK, exist_ok=True)
+        self.name = name
         self.path = os.path.join(WORK, name + ".lock")
 
     def __enter__(self):
-        self.f = open(self.path, "w")
-        fcntl.flock(self.f, fcntl.LOCK_EX)
+        ent = Lock._held.get(self.name)
+        if ent:
+            ent[1] += 1
+            return self
+        f = open(self.path, "w")
+        fcntl.flock(f, fcntl.LOCK_EX)
+        Lock._held[self.name] = [f, 1]
         return self
 
     def __exit__(self, *a):
-        fcntl.flock(self.f, fcntl.LOCK_UN)
-        self.f.close()
+        ent = Lock._held[self.name]
+        ent[1] -= 1
+        if ent[1] == 0:
+            fcntl.flock(ent[0], fcntl.LOCK_UN)
+            ent[0].close()
+            del Lock._held[self.name]
 
 
 def strip_comments(text):
@@ -201,6 +214,13 @@ class Ctx:
                     self.broken(f"forbidden construct in {os.path.relpath(src, LEAN)}:{ln}: {line.strip()[:80]}",
                                 kind="obligation")
                     ok = False
+        # Generated/ is shared by all check processes (possibly of different VERIF_REPO trees): hold the
+        # translator lock from regeneration to the end of build + audit so the facts are those of OUR tree.
+        with Lock("translator"):
+            sh([TRANSLATOR_BIN, "-repo", REPO, "-out", GENERATED])
+            return self._obligations_locked(module, rel, text, names, ok)
+
+    def _obligations_locked(self, module, rel, text, names, ok):
         with Lock("build"):
             rc, out, err = sh(["lake", "build", module], cwd=LEAN)
         if rc != 0:
